@@ -63,7 +63,8 @@ claim(
     "pairs `!=` is exactly the negation of `==`, a quantity equals itself expressed in any convertible unit in both argument orders, and == is reflexive; on a universe of 13 "
     "stack values (null, booleans, numbers, quoted/unquoted strings, empty comma/space/bracketed lists, an argument list, an empty map) == is symmetric and reflexive and != its "
     "negation; colors: byte and rgba() spellings compare equal in both orders; SassMap get_ref/contains on a concrete four-entry map find an entry exactly when a key is == to the probe "
-    "(unit conversion, quote-insensitive strings) and return the first such entry, iteration is in insertion order. Bounded stand-ins (value universe, one map), not counted as proved. NOT covered: non-empty lists, "
+    "(unit conversion, quote-insensitive strings) and return the first such entry, iteration is in insertion order. The three list-vs-argument-list pairs (4-9 min each) are in the thorough tier only, "
+    "so that the quick tier stays under ten minutes; the small-value rows of the quick tier still compare the argument list with every other value kind. Bounded stand-ins (value universe, one map), not counted as proved. NOT covered: non-empty lists, "
     "SassMap ==/insert/remove/merge/get/keys/values (dropping a Value is beyond Kani here; map == does not finish), transitivity, duplicate-key check, index().",
     K_TRUST + " Values are never dropped in harnesses (ManuallyDrop).",
     "Kani contracts on Value::eq/not_equals over symbolic units and a bounded value universe",
